@@ -29,6 +29,15 @@
 (*                             got (Resize / re-slice / append within cap);  *)
 (*                             foreign = how many of them are neither zero   *)
 (*                             nor written by g                              *)
+(*  bown      s, mem, via      Get or Resize (via) handed slice number s to  *)
+(*                             a caller; mem numbers the memory block behind *)
+(*                             it (equal mem <=> the blocks overlap)         *)
+(*  brel      s                the caller that owned slice s Put it          *)
+(*  bread     s, ok            the owner of s read it back; ok <=> it holds  *)
+(*                             exactly what that owner wrote into it         *)
+(*  (ownership law: a slice handed out by Get/Resize is owned by exactly one *)
+(*  caller until that caller Puts it - growing through Resize does not end   *)
+(*  the caller's ownership of the old slice)                                 *)
 (*  -- kind "calc": stateless calls (cron parse, crypto) ---------------------*)
 (*  calc      g, what, same    a call made concurrently returned the same    *)
 (*                             value as when made alone                      *)
@@ -45,7 +54,8 @@ IsBad(c) == c.bad
 CReset(e) ==
   [bad |-> FALSE, why |-> "", kind |-> e.kind, n |-> e.n,
    done |-> {},        \* pipelines whose result was seen
-   reg |-> {}]         \* <<name, obj>> pairs returned so far
+   reg |-> {},         \* <<name, obj>> pairs returned so far
+   live |-> {}]        \* <<slice, mem>> pairs handed out by the byte pool and not yet Put
 
 Dummy == CReset([kind |-> "bufpool", n |-> 0])
 
@@ -77,6 +87,14 @@ CBPut(c, e) == IF e.putlen > e.cap THEN Bad("harness: putlen beyond cap") ELSE c
 CBGet(c, e) == IF e.len # 0 THEN Bad("Get returned a non-empty slice") ELSE c
 CBView(c, e) == IF e.foreign > 0 THEN Bad("stale bytes visible") ELSE c
 
+CBOwn(c, e) ==
+  IF \E pr \in c.live : pr[2] = e.mem /\ pr[1] # e.s THEN Bad("a slice handed out shares memory with a live slice")
+  ELSE [c EXCEPT !.live = {pr \in @ : pr[1] # e.s} \cup {<<e.s, e.mem>>}]
+CBRel(c, e) == [c EXCEPT !.live = {pr \in @ : pr[1] # e.s}]
+CBRead(c, e) ==
+  IF (\E pr \in c.live : pr[1] = e.s) /\ ~e.ok THEN Bad("a live slice no longer holds what its owner wrote")
+  ELSE c
+
 CCalc(c, e) == IF ~e.same THEN Bad("concurrent " \o e.what \o " call differs from the same call made alone") ELSE c
 
 CRace(c, e) == Bad("data race on " \o e.site)
@@ -95,6 +113,9 @@ CNext(c, e) ==
          [] e.ev = "bput"      -> CBPut(c, e)
          [] e.ev = "bget"      -> CBGet(c, e)
          [] e.ev = "bview"     -> CBView(c, e)
+         [] e.ev = "bown"      -> CBOwn(c, e)
+         [] e.ev = "brel"      -> CBRel(c, e)
+         [] e.ev = "bread"     -> CBRead(c, e)
          [] e.ev = "calc"      -> CCalc(c, e)
          [] e.ev = "race"      -> CRace(c, e)
          [] e.ev = "end"       -> CEnd(c)
